@@ -71,6 +71,7 @@ def reset_log():
     from verif_lib import components
 
     del components.LOG[:]
+    components.THE_ERROR.__traceback__ = None
     return components.LOG
 
 
